@@ -21,7 +21,7 @@ import (
 	"golang.org/x/tools/go/ssa/ssautil"
 )
 
-const repoDir = "/repo"
+var repoDir = "/repo"
 const modPath = "github.com/jech/galene"
 
 var verifDir = "/verif"
@@ -649,6 +649,10 @@ func main() {
 	}
 	if v := os.Getenv("VERIF_DIR"); v != "" {
 		verifDir = v
+	}
+	if v := os.Getenv("VERIF_REPO"); v != "" {
+		// development aid (seed testing in scratch worktrees); the registered commands never set it
+		repoDir = v
 	}
 	switch os.Args[1] {
 	case "check":
